@@ -81,13 +81,18 @@ PofEvent(e) == CASE e.ev = "Write"   -> WriteP(e)
                  [] e.ev \in {"Reset", "Source"} -> <<TRUE, "">>
                  [] OTHER -> Assert(FALSE, <<"unknown event", e.ev>>)
 
+\* tags that decide version detection, without laying out the whole file
+WdlTagsPresent(td) == LET th == WdlHeadSpecs(td) IN
+                      [ti \in 1..Len(th) |-> th[ti][1]] \o (IF \E tt \in td.tiles : MahoWritten(td, tt) THEN <<"MAHO">> ELSE <<>>)
+
 \* ---- D-conjuncts: <<holds, what>> ----------------------------------------------------------------
 DofEvent(e) ==
     CASE e.ev = "Source"  -> <<~Wdt \/ ((e.warnings = 0) <=> WdtValid(tdef)), "validate-vs-WdtValid">>
       [] e.ev = "Write"   -> <<e.res # "ok" \/ e.len = CF_TotalSize(Specs), "file-size">>
-      [] e.ev = "WalkEnd" -> <<[ti \in 1..Len(tcf.seen) |-> <<tcf.seen[ti].tag, tcf.seen[ti].size>>] = Specs, "chunk-order-or-size">>
+      [] e.ev = "WalkEnd" -> LET tspecs == Specs  tseen == tcf.seen IN
+                             <<[ti \in 1..Len(tseen) |-> <<tseen[ti].tag, tseen[ti].size>>] = tspecs, "chunk-order-or-size">>
       [] e.ev = "Parse"   -> <<e.res # "ok" \/ e.det = (IF Wdt THEN DetectVersion(tdef.hasMaid, MwmoWritten(tdef), tdef.hasModf, tdef.flags, tdef.ver)
-                                                      ELSE DetectWdl([ti \in 1..Len(Specs) |-> Specs[ti][1]], IF tdef.mode = "latest" THEN "Latest" ELSE tdef.ver)),
+                                                      ELSE DetectWdl(WdlTagsPresent(tdef), IF tdef.mode = "latest" THEN "Latest" ELSE tdef.ver)),
                                "detected-version">>
       [] e.ev = "Convert" -> IF Wdt /\ e.res = "ok"
                              THEN LET tc == ConvertWdt(tdef, tdef.ver, e.to) IN
